@@ -16,7 +16,11 @@ theorem shape_tagOk (r : List SLayer) (m : List RLayer) (h : shape r m = true) :
       | (simp [etherTypeOf, tagOk]; done)
       | (cases m with
          | nil => simp [shape] at h
-         | cons ml m' => cases ml <;> first | (simp [shape] at h; done) | simp [etherTypeOf, etherTypeR, tagOk])
+         | cons ml m' =>
+           cases ml <;> first
+             | (simp [shape] at h; done)
+             | (simp [etherTypeOf, etherTypeR, tagOk]; done)
+             | (rename_i tp _; cases tp <;> simp [etherTypeOf, etherTypeR, tagOk, TPID.bytes]))
 
 theorem protoR_not_ext (m : List RLayer) : isV6Extension (protoR m) = false := by
   unfold protoR; split <;> decide
@@ -43,9 +47,9 @@ theorem dser_eth (s d rd rs : Bytes) (r : List SLayer) (m : List RLayer) (h1 : r
   simp [demand, serR, verdictR, slice_prefix, slice_skip, drop_skip, h1, h2, etherTypeR_length, ih, ht]
   fin_len
 
-theorem dser_vlan (tci t : Bytes) (r : List SLayer) (m : List RLayer) (h1 : t.length = 2)
+theorem dser_vlan (tci t : Bytes) (tp : TPID) (r : List SLayer) (m : List RLayer) (h1 : t.length = 2)
     (hs : shape r m = true) (ih : demand r (serR m) = verdictR r m) :
-    demand (.vlan tci :: r) (serR (.vlan t :: m)) = verdictR (.vlan tci :: r) (.vlan t :: m) := by
+    demand (.vlan tci :: r) (serR (.vlan tp t :: m)) = verdictR (.vlan tci :: r) (.vlan tp t :: m) := by
   have ht := shape_tagOk r m hs
   simp [demand, serR, verdictR, slice_prefix, slice_skip, drop_skip, h1, etherTypeR_length, ih, ht]
   fin_len
@@ -257,9 +261,9 @@ theorem demand_serR : ∀ (r : List SLayer) (m : List RLayer), shape r m = true 
       | nil => simp [shape] at h
       | cons ml m' =>
         cases ml <;> try (simp [shape] at h; done)
-        case vlan t =>
+        case vlan tp t =>
           simp only [shape, Bool.and_eq_true, beq_iff_eq] at h
-          exact dser_vlan tci t r m' h.1 h.2 (demand_serR r m' h.2)
+          exact dser_vlan tci t tp r m' h.1 h.2 (demand_serR r m' h.2)
     | loopback f =>
       cases m with
       | nil => simp [shape] at h
